@@ -128,6 +128,12 @@ class Closure:
         self.env, self.params, self.body = env, params, body
 
 
+class ModValue:
+    """the value of a nested (mod ...) expression: a program"""
+    def __init__(self, form):
+        self.form = form
+
+
 class Bottom:
     """a parameter whose position does not exist in the argument value: using it fails"""
 
@@ -279,10 +285,15 @@ class RefEval:
             return self.assign(items[1:], env)
         if h == b'lambda':
             return self.make_lambda(items, env)
+        if h == b'mod' and h not in env:
+            return ModValue(f)
         if h == b'a' and len(items) == 3:
             fv = self.eval(items[1], env)
             if isinstance(fv, Closure):
                 return self.call_closure(fv, self.eval(items[2], env))
+            if isinstance(fv, ModValue):
+                # a nested program is a value; applying it runs that program, with its own helpers, on the arguments
+                return RefEval(self.eng, self.alloc, self.dialect).run_mod(fv.form, self.need_tree(self.eval(items[2], env)))
             raise RefOutside('(a ...) on data')
         args = []
         rest = None
@@ -658,7 +669,20 @@ TEMPLATES = [
 
 TEMPLATES += [
     ('constant_atom', '(mod (X) {S} (defconstant K 7) (defun H (A) (+ A K)) (H X))', [('list', 'B')]),
+    ('inline_nested_capture', '(mod (P) {S} (defun-inline F ((A (@ pt (X Y)))) (list A X Y pt)) (F P))', [('list', ('list', 'B', ('list', 'B', 'B')))]),
+    ('rest_const_args', '(mod (X) {S} (defun F (A B . C) (c (- A B) C)) (F 3 5 &rest X))', [('list', ('list', 'B', 'B')), ('list', 'E')]),
+    ('inline_destructure3', '(mod (X) {S} (defun-inline third ((A B C)) (c C A)) (third X))', [('list', ('list', 'B', 'B', 'B')), ('list', ('list', ['B', 'B'], 'B', 'B'))]),
+    ('nested_mod', '(mod (X) {S} (defun F (A) (+ A 1)) (a (mod (Y) (* Y 2)) (list (F X))))', [('list', 'B')]),
     ('macro', '(mod (X Y) {S} (defmacro twice (A) (qq (+ (unquote A) (unquote A)))) (defun F (A) (twice (* A 3))) (F (- X Y)))', [('list', 'B', 'B')]),
+]
+
+TEMPLATES += [
+    # a quoted atom spelled like a parameter
+    ('quoted_param_name', '(mod (Y) {S} (defun F (X) (c (q . X) X)) (F Y))', [('list', 'B')]),
+    # a constant that depends on another one only through a function it calls
+    ('defconst_through_function', '(mod (X) {S} (defconst A 5) (defun add-a (N) (+ N A)) (defconst B (add-a 1)) (+ X B))', [('list', 'B')]),
+    # two functions with identical bodies (identical tree hashes)
+    ('twin_functions', '(mod (X) {S} (defun ff (A) (+ A 1)) (defun gg (A) (+ A 1)) (c (ff X) (gg X)))', [('list', 'B')]),
 ]
 
 TEMPLATES_23 = [
@@ -691,7 +715,7 @@ class CompileRun(Harness):
     max_paths = 20000
     OPTIONS = {'quick': [('cl21', False), ('cl23', False)], 'thorough': [('cl21', False), ('cl21', True), ('cl22', False), ('cl23', False), ('cl24', False)]}
 
-    QUICK_23 = ('defun_if', 'inline_let', 'rest_tail_let', 'let_shadow', 'lambda_map', 'assign_shadow')
+    QUICK_23 = ('defun_if', 'inline_let', 'rest_tail_let', 'let_shadow', 'lambda_map', 'assign_shadow', 'rest_const_args')
 
     def templates(self, tier):
         for name, src, specs in TEMPLATES:
@@ -917,7 +941,7 @@ class ClassicBuilds(BuildsAgree):
     call-by-value evaluation of the source and against the modern cl21 build of the same text"""
     name = 'classic_builds'
     prop = 'C03'
-    CLASSIC_OK = ('arith', 'defun_if', 'destructure', 'constant_atom', 'recursion', 'nested_inline', 'if_lazy', 'cmp_ops', 'macro')
+    CLASSIC_OK = ('arith', 'defun_if', 'destructure', 'constant_atom', 'recursion', 'nested_inline', 'if_lazy', 'cmp_ops', 'macro', 'inline_destructure3')
     PAIRS = {'quick': [(('classic', False), ('cl21', False))], 'thorough': [(('classic', False), ('cl21', False)), (('classic', False), ('cl21', True))]}
     functions = ['clvmc::compile_clvm_text_maybe_opt (classic branch)', 'stage_2::operators::run_program_for_search_paths / CompilerOperators::{op, run_program}',
                  'stage_2::compile::{do_com_prog, compile_qq, compile_macros, compile_symbols, try_expand_macro_for_atom, compile_application, ...}',
@@ -1016,8 +1040,14 @@ class SymbolsDescribe(CompileRun):
                 out.append((hi[1].a.decode(), hi[0].a == b'defun-inline', hi[2], hi[3]))
         return form, out
 
+    # two functions with identical code share one tree hash, hence one entry: "an entry for every function" cannot be
+    # asked of them by name (the template stays in the C05 family, where it belongs)
+    SKIP = ('twin_functions',)
+
     def cases(self, tier):
         for name, src, specs, (sig, optimize) in self.templates(tier):
+            if name in self.SKIP:
+                continue
             text = src.replace('{S}', SIGILS[sig])
             for fname, inline, params, body in self.functions_of(text)[1]:
                 if not inline:
@@ -1137,6 +1167,9 @@ UNUSED_TEMPLATES = [
     ('used_in_condition', '(mod (u v w) {S} (if v u u))', ['u', 'v', 'w']),
     ('used_through_list', '(mod (u v w) {S} (defun H (z) (f (r z))) (H (list u v)))', ['u', 'v', 'w']),
     ('destructured', '(mod ((u v) w) {S} (+ u w))', ['u', 'v', 'w']),
+    # the partial evaluator gives up (stack budget) on this one: the check then reports an error, which is not a report
+    # of unused parameters
+    ('evaluator_gives_up', '(mod (u v) {S} (defun rep (N X) (if N (rep (- N 1) X) X)) (rep 25 u))', ['u', 'v']),
     # a parameter spelled like an operator and used in operator position: the compiler calls the parameter, the check
     # reads the operator (known finding, see DESIGN.md)
     ('operator_named', '(mod (a b c) {S} (defun-inline G (p q) (c p ())) (G a (+ b c)))', ['a', 'b', 'c']),
@@ -1147,6 +1180,7 @@ def unused_from_mir(source):
     from mirsym import driver
     fs, key, roots = driver.funcs(True)
     eng = Engine(fs, roots, bigw=264, loop_bound=200000, query_timeout_ms=20000)
+    eng.max_depth = 20000          # the partial evaluator has its own stack budget (EVAL_STACK_LIMIT); let it be the one that ends the run
 
     def run(e):
         e.env['tls'] = tls(True)
@@ -1162,7 +1196,7 @@ def unused_from_mir(source):
         return res
     out = outs[0][2]
     if out.variant != 'Ok':
-        res.update(end='err', unused=None)
+        res.update(end='ok', unused=[], errored=True)          # the check itself failed: nothing is reported unused
         return res
     text = bytes_of_items(out.fields[0].fields[1]).decode('latin1')
     res.update(end='ok', unused=sorted(l[3:] for l in text.split('\n') if l.startswith(' - ')), text=text)
@@ -1183,8 +1217,8 @@ def unused_report(source):
             pass
     res = unused_from_mir(source)
     nat = driver.NATIVE.run('check_unused', [dict(case={}, inputs=dict(source=source))])[0]
-    res['native_unused'] = nat.get('unused')
-    res['agrees'] = res.get('unused') is not None and res['unused'] == nat.get('unused')
+    res['native_unused'] = nat.get('unused') if 'unused' in nat else ([] if 'err' in nat else None)
+    res['agrees'] = res.get('unused') is not None and res['unused'] == res['native_unused'] and bool(res.get('errored')) == ('err' in nat)
     res['source'] = source
     tmp = path + '.%d.tmp' % os.getpid()
     json.dump(res, open(tmp, 'w'))
@@ -1329,8 +1363,10 @@ class OutputIndependent(CompileRun):
     name = 'output_independent'
     prop = 'C05'
     kernel = 'compile_text'
-    TEMPLATES_USED = {'quick': ('inline_let', 'rest_tail_let', 'constant', 'macro'),
-                      'thorough': ('inline_let', 'rest_tail_let', 'constant', 'macro', 'at_capture', 'nested_inline', 'recursion', 'let_shadow')}
+    TEMPLATES_USED = {'quick': ('inline_let', 'rest_tail_let', 'constant', 'macro', 'quoted_param_name', 'defconst_through_function', 'twin_functions'),
+                      'thorough': ('inline_let', 'rest_tail_let', 'constant', 'macro', 'quoted_param_name', 'defconst_through_function', 'twin_functions',
+                                   'at_capture', 'nested_inline', 'recursion', 'let_shadow')}
+    CLASSIC_TOO = ('defconst_through_function', 'twin_functions', 'constant_atom')
     POLICIES = ('insertion', 'reversed', 'rotated')
     COUNTER_ADVANCE = (0, 7)
     functions = CompileRun.functions[:7] + ['gensym::gensym / ARGNAME_CTR']
@@ -1343,7 +1379,7 @@ class OutputIndependent(CompileRun):
     def cases(self, tier):
         sigils = ['cl21'] if tier == 'quick' else ['cl21', 'cl23']
         for t in self.TEMPLATES_USED[tier]:
-            for sg in sigils:
+            for sg in sigils + (['classic'] if t in self.CLASSIC_TOO else []):
                 if sg == 'cl23' and t not in CompileRun.QUICK_23:
                     continue
                 for pol in range(len(self.POLICIES)):        # one shard per policy and counter choice: every path is a
@@ -1360,7 +1396,7 @@ class OutputIndependent(CompileRun):
         return dict(policy=ev(model, inp['policy']), advance=bool(ev(model, inp['advance'])))
 
     def source(self, case):
-        for name, src, specs in TEMPLATES + TEMPLATES_23:
+        for name, src, specs in TEMPLATES + TEMPLATES_23 + TEMPLATES_C05:
             if name == case['t']:
                 return src.replace('{S}', SIGILS[case['sigil']])
         raise KeyError(case['t'])
@@ -1603,3 +1639,6 @@ class IllScopedRejected(Harness):
 
     def required_witnesses(self, tier):
         return ['accepted', 'rejected']
+
+
+TEMPLATES_C05 = []
